@@ -4,6 +4,7 @@ use vcore::runner::{install_panic_hook, Ctx};
 
 fn dispatch(ctx: &Ctx) {
     match ctx.prop.as_str() {
+        "C01" => vcore::c01::run(ctx),
         "C04" => vcore::c04::run(ctx),
         "C05" => vcore::c05::run(ctx),
         "C09" => vcore::c09::run(ctx),
